@@ -7,7 +7,6 @@ package c04
 // driver turns every race report with a Havoc frame into a violation `race|f1|f2`.
 
 import (
-	"encoding/binary"
 	"fmt"
 	"runtime"
 	"runtime/debug"
@@ -32,7 +31,7 @@ type JobC struct {
 
 type CaseC struct {
 	Producers [][]JobC `json:"producers"`
-	Pre       int      `json:"pre"`   // tasks queued before the goroutines start
+	Pre       int      `json:"pre"`    // tasks queued before the goroutines start
 	CYield    int      `json:"cyield"` // scheduler yields of the consumer between check-ins
 }
 
@@ -42,9 +41,10 @@ func genC(t *rapid.T) CaseC {
 	for i := 0; i < p; i++ {
 		n := rapid.IntRange(1, 40).Draw(t, "njobs")
 		var js []JobC
-		relay := agentfx.Weighted(t, "path", 2, 1, 1) // 0 operator, 1 relay, 2 mixed
+		relay := agentfx.Weighted(t, "path", 2, 1, 1)            // 0 operator, 1 relay, 2 mixed
+		pace := []int{1, 8, 40, 150}[agentfx.Bits(t, "pace", 2)] // how slow this producer is relative to a check-in
 		for j := 0; j < n; j++ {
-			jb := JobC{Size: rapid.IntRange(0, 200).Draw(t, "size"), Yield: rapid.IntRange(0, 12).Draw(t, "yield")}
+			jb := JobC{Size: rapid.IntRange(0, 200).Draw(t, "size"), Yield: rapid.IntRange(0, 12).Draw(t, "yield") * pace}
 			jb.Relay = relay == 1 || (relay == 2 && rapid.Bool().Draw(t, "relay"))
 			js = append(js, jb)
 		}
@@ -67,9 +67,9 @@ func jobC(p, seq int, j JobC) agent.Job {
 }
 
 type obsC struct {
-	overlap   int // largest number of producers active around one check-in
-	checkins  int
-	multi     bool
+	overlap  int // largest number of producers active around one check-in
+	checkins int
+	multi    bool
 }
 
 var lastC obsC
@@ -81,7 +81,6 @@ func checkC(c CaseC) *core.Violation {
 		return core.V("harness|fixture", "%v", err)
 	}
 	a := w.ses[0].A
-	type key struct{ p, seq int }
 	spec := map[uint32]JobC{}
 	enq := 0
 	// the pre-queued tasks belong to an extra producer index (sequential, before the start)
@@ -210,27 +209,17 @@ func checkC(c CaseC) *core.Violation {
 		lastSeq[p] = seq
 	}
 	if len(seen) != enq {
-		missing := ""
-		n := 0
+		n, first := 0, uint32(0xffffffff)
 		for id := range spec {
 			if seen[id] == 0 {
 				n++
-				if missing == "" {
-					missing = fmt.Sprintf("producer %d seq %d", int(id>>20)-1, int(id&0xfffff))
+				if id < first {
+					first = id
 				}
 			}
 		}
-		// deterministic text: pick the smallest id
-		small := uint32(0xffffffff)
-		for id := range spec {
-			if seen[id] == 0 && id < small {
-				small = id
-			}
-		}
-		missing = fmt.Sprintf("producer %d seq %d", int(small>>20)-1, int(small&0xfffff))
-		return core.V("c|lost", "%d of %d queued tasks were never delivered (first: %s) although the queue was drained to a no-job reply", n, enq, missing)
+		return core.V("c|lost", "%d of %d queued tasks were never delivered (first: producer %d seq %d) although the queue was drained to a no-job reply", n, enq, int(first>>20)-1, int(first&0xfffff))
 	}
-	_ = binary.LittleEndian
 	return nil
 }
 
@@ -279,7 +268,7 @@ func TestC04c(t *testing.T) {
 	big()
 	core.Run(t, core.Spec[CaseC]{
 		Property: "C04", Sub: "c",
-		Rule: "concurrent programs: 1-4 producer goroutines with 1-40 generated jobs each (operator path with request ids / relay path with request id 0 / mixed, 0-200 data bytes, 0-12 scheduler yields before each AddJobToQueue), 0-4 tasks queued beforehand, one consumer doing check-ins through the real endpoint until all producers finished and the queue drained to a no-job reply; run under the race detector. Oracle: every delivered task is a queued one, none twice, none missing, per-producer order kept; race reports with a Havoc frame are violations (driver). Non-trivial: at least 2 producers were running both before and after some check-in (observed); distinct = (#producers, observed overlap, paths used, pre-queued, job-count bucket)",
+		Rule: "concurrent programs: 1-4 producer goroutines with 1-40 generated jobs each (operator path with request ids / relay path with request id 0 / mixed, 0-200 data bytes, 0-12 scheduler yields x a per-producer pace of 1/8/40/150 before each AddJobToQueue), 0-4 tasks queued beforehand, one consumer doing check-ins through the real endpoint until all producers finished and the queue drained to a no-job reply; run under the race detector. Oracle: every delivered task is a queued one, none twice, none missing, per-producer order kept; race reports with a Havoc frame are violations (driver). Non-trivial: at least 2 producers were running both before and after some check-in (observed); distinct = (#producers, observed overlap, paths used, pre-queued, job-count bucket)",
 		Gen:  genC, Check: checkC, Classify: classifyC,
 		Assumptions: []string{"interleavings are sampled, not enumerated: the Go scheduler decides; the race detector turns unsynchronised access into a schedule-independent signal"},
 	})
